@@ -42,13 +42,14 @@ const (
 
 type Node struct {
 	ID    int   `json:"id"`
-	Preds []int `json:"preds"` // increasing; 0 = START; ordinary edges (data and control)
-	Ctl   []int `json:"ctl,omitempty"` // eager: control-only predecessors (WorkflowNode.AddDependency)
-	Dat   []int `json:"dat,omitempty"` // eager: data-only predecessors (AddInputWithOptions(.., WithNoDirectDependency()))
+	Preds []int `json:"preds"`          // increasing; 0 = START; ordinary edges (data and control)
+	Ctl   []int `json:"ctl,omitempty"`  // eager: control-only predecessors (WorkflowNode.AddDependency)
+	Dat   []int `json:"dat,omitempty"`  // eager: data-only predecessors (AddInputWithOptions(.., WithNoDirectDependency()))
 	Fail  int   `json:"fail,omitempty"` // 0 ok, 1 error, 2 panic, 3 the state post-handler returns an error, 4 the state pre-handler returns an error (submit fails before the step is started), 5 (batch modes) the body cancels the context of the run and succeeds
 	Pre   bool  `json:"pre,omitempty"`  // the node has a state pre-handler (taskManager.submit runs it: preProcessor)
 	Post  bool  `json:"post,omitempty"` // the node has a state post-handler (taskManager.waitOne runs it: postProcessor)
 	Slow  bool  `json:"slow,omitempty"` // body sleeps 25-40 ms (eager: widen the return window)
+	Sub   int   `json:"sub,omitempty"`  // the node is a nested Graph with two parallel inner nodes (the body, and a node that returns an empty map after a seeded delay): 1 any-predecessor, 2 all-predecessor inner graph
 }
 
 // Branch: a multi-branch on node From whose condition always selects Sel (a subset of Ends).
@@ -64,10 +65,10 @@ type Case struct {
 	Mode     string   `json:"mode"`  // pregel | dag | eager
 	Nodes    []Node   `json:"nodes"` // layered order; the last one is END (id 1)
 	Branches []Branch `json:"branches,omitempty"`
-	Entry    string   `json:"entry,omitempty"` // "" = Invoke; "stream" = Stream, the chunks merged by key; "collect" / "transform" = the same two with the input handed in as a one-chunk stream
+	Entry    string   `json:"entry,omitempty"`     // "" = Invoke; "stream" = Stream, the chunks merged by key; "collect" / "transform" = the same two with the input handed in as a one-chunk stream
 	MaxSteps int      `json:"max_steps,omitempty"` // pregel only: compose.WithMaxRunSteps; > 0 marks a case whose graph may have cycles (a node may run in several steps)
-	Seeds    []uint64 `json:"seeds"` // one run per delay seed
-	Traced   int      `json:"traced"` // the first Traced runs record the protocol trace
+	Seeds    []uint64 `json:"seeds"`               // one run per delay seed
+	Traced   int      `json:"traced"`              // the first Traced runs record the protocol trace
 }
 
 func key(id int) string {
@@ -134,15 +135,15 @@ type exec struct {
 }
 
 type runState struct {
-	seed   uint64
-	state  []int32 // per node id: 0 not started, 1 running, 2 finished
-	starts []int32
-	logMu  chan struct{}
-	log    []exec
-	pre    []int32 // per node id: calls of its state pre-handler
-	post   []int32 // per node id: calls of its state post-handler
-	postNil int32  // post-handler calls that were handed a nil output (the execution had failed)
-	cancel context.CancelFunc // cancels the context of this run (behaviour 5 of a node)
+	seed    uint64
+	state   []int32 // per node id: 0 not started, 1 running, 2 finished
+	starts  []int32
+	logMu   chan struct{}
+	log     []exec
+	pre     []int32            // per node id: calls of its state pre-handler
+	post    []int32            // per node id: calls of its state post-handler
+	postNil int32              // post-handler calls that were handed a nil output (the execution had failed)
+	cancel  context.CancelFunc // cancels the context of this run (behaviour 5 of a node)
 }
 
 // hstate is the local state of a graph whose nodes carry state handlers
@@ -166,13 +167,13 @@ type runObs struct {
 }
 
 type built struct {
-	c      *Case
-	run    func(ctx context.Context, in map[string]any) (map[string]any, error)
-	cur    atomic.Value // *runState
-	maxID  int
-	anc    map[int]bool
-	byID   map[int]*Node
-	buildE string
+	c       *Case
+	run     func(ctx context.Context, in map[string]any) (map[string]any, error)
+	cur     atomic.Value // *runState
+	maxID   int
+	anc     map[int]bool
+	byID    map[int]*Node
+	buildE  string
 	preFail bool // some node's pre-handler fails: submit returns before the step is started
 }
 
@@ -269,6 +270,41 @@ func (b *built) nodeOpts(n *Node) []compose.GraphAddNodeOpt {
 	return opts
 }
 
+// subGraph: node n as a nested graph START -> {x, y} -> END. x is the body of n (logs the execution, delays,
+// fails as n does, returns {n: in}); y returns an empty map after a delay of its own, so END's fan-in merges
+// {n: in} with {} and the nested run has its own task manager with two parallel tasks, whichever finishes first.
+func (b *built) subGraph(n *Node) (compose.AnyGraph, []compose.GraphAddNodeOpt, error) {
+	g := compose.NewGraph[map[string]any, map[string]any]()
+	if err := g.AddLambdaNode("x", compose.InvokableLambda(b.body(n))); err != nil {
+		return nil, nil, err
+	}
+	id := n.ID
+	if err := g.AddLambdaNode("y", compose.InvokableLambda(func(ctx context.Context, in map[string]any) (map[string]any, error) {
+		h := mix(b.rsOf(ctx).seed, uint64(id)+5003)
+		switch h % 4 {
+		case 1:
+			runtime.Gosched()
+		case 2:
+			time.Sleep(time.Duration((h>>8)%400) * time.Microsecond)
+		case 3:
+			time.Sleep(time.Duration((h>>8)%1500) * time.Microsecond)
+		}
+		return map[string]any{}, nil
+	})); err != nil {
+		return nil, nil, err
+	}
+	for _, e := range [][2]string{{compose.START, "x"}, {compose.START, "y"}, {"x", compose.END}, {"y", compose.END}} {
+		if err := g.AddEdge(e[0], e[1]); err != nil {
+			return nil, nil, err
+		}
+	}
+	var opts []compose.GraphAddNodeOpt
+	if n.Sub == 2 {
+		opts = append(opts, compose.WithGraphCompileOptions(compose.WithNodeTriggerMode(compose.AllPredecessor)))
+	}
+	return g, opts, nil
+}
+
 // allPreds: the predecessors by an edge of any kind
 func (n *Node) allPreds() []int {
 	if len(n.Ctl) == 0 && len(n.Dat) == 0 {
@@ -320,7 +356,15 @@ func build(c *Case) *built {
 			g := compose.NewGraph[map[string]any, map[string]any](gopts...)
 			for i := range c.Nodes {
 				n := &c.Nodes[i]
-				if n.ID != idEnd {
+				if n.ID != idEnd && n.Sub > 0 {
+					sub, sopts, e := b.subGraph(n)
+					if err = e; err != nil {
+						return
+					}
+					if err = g.AddGraphNode(key(n.ID), sub, append(b.nodeOpts(n), sopts...)...); err != nil {
+						return
+					}
+				} else if n.ID != idEnd {
 					if err = g.AddLambdaNode(key(n.ID), compose.InvokableLambda(b.body(n)), b.nodeOpts(n)...); err != nil {
 						return
 					}
@@ -362,6 +406,12 @@ func build(c *Case) *built {
 				var wn *compose.WorkflowNode
 				if n.ID == idEnd {
 					wn = wf.End()
+				} else if n.Sub > 0 {
+					sub, sopts, e := b.subGraph(n)
+					if err = e; err != nil {
+						return
+					}
+					wn = wf.AddGraphNode(key(n.ID), sub, append(b.nodeOpts(n), sopts...)...)
 				} else {
 					wn = wf.AddLambdaNode(key(n.ID), compose.InvokableLambda(b.body(n)), b.nodeOpts(n)...)
 				}
@@ -999,6 +1049,16 @@ func (engine) Generate(r *lib.Rng, tier string, i int) any {
 				if c.Nodes[k].ID == s {
 					c.Nodes[k].Slow = true
 				}
+			}
+		}
+	}
+	// one case in five: one to three nodes are nested graphs (a task manager of their own, two parallel inner
+	// tasks one of which returns an empty map; the node's value for the model is unchanged: {n: in})
+	if r.Chance(1, 5) {
+		for k := r.Range(1, 3); k > 0; k-- {
+			n := &c.Nodes[r.Intn(len(c.Nodes))]
+			if n.ID != idEnd && n.Fail != 5 {
+				n.Sub = r.Range(1, 2)
 			}
 		}
 	}
@@ -1652,6 +1712,12 @@ func (engine) Run(ci any) lib.Result {
 	}
 	if nDat > 0 {
 		res.Tags = append(res.Tags, "edges:data-only")
+	}
+	for _, n := range c.Nodes {
+		if n.Sub > 0 {
+			res.Tags = append(res.Tags, "nested:yes")
+			break
+		}
 	}
 	switch {
 	case len(c.Branches) == 0 && nCtl+nDat == 0:
